@@ -173,7 +173,7 @@ fn gen_macro_case(t: &mut Tape) -> MacroCase {
     }
     // the program: calls and plain lines; global labels ga (start), gb (middle), gz (end)
     let ncalls = t.urange(1, 4);
-    let mut calls = Vec::new();
+    let mut calls: Vec<(usize, Vec<String>)> = Vec::new();
     let mut expr_arg = false;
     for _ in 0..ncalls {
         let mi = t.below(macros.len());
@@ -192,7 +192,31 @@ fn gen_macro_case(t: &mut Tape) -> MacroCase {
             .collect();
         calls.push((mi, args));
     }
-    let plain = vec![(0usize, "ga:".to_string()), (ncalls / 2, "#align 8".to_string()), (ncalls / 2, "gb:".to_string()), (ncalls, "#align 8".to_string()), (ncalls, "gz:".to_string())];
+    let mut plain = vec![(0usize, "ga:".to_string()), (ncalls / 2, "#align 8".to_string()), (ncalls / 2, "gb:".to_string()), (ncalls, "#align 8".to_string()), (ncalls, "gz:".to_string())];
+    // v2: the caller's nested constants are named like the block-local labels (`.blk0` under ga and under gb) and
+    // passed as arguments: `.blk0` written at the call is the caller's symbol, never the block's own label.
+    // (\u{1} marks such an argument: `.blk0` in the macro program, `<enclosing global>.blk0` in the inlined one.)
+    if crate::engine::gen_version() >= 2 && t.chance(1, 3) {
+        plain = vec![
+            (0usize, "ga:".to_string()),
+            (0, ".blk0 = 0x5".to_string()),
+            (0, ".blk1 = 0x7".to_string()),
+            (ncalls / 2, "#align 8".to_string()),
+            (ncalls / 2, "gb:".to_string()),
+            (ncalls / 2, ".blk0 = 0x6".to_string()),
+            (ncalls / 2, ".blk1 = 0x9".to_string()),
+            (ncalls, "#align 8".to_string()),
+            (ncalls, "gz:".to_string()),
+        ];
+        for (mi, args) in calls.iter_mut() {
+            for (k, a) in args.iter_mut().enumerate() {
+                if matches!(macros[*mi].params[k].1, PType::Untyped) && t.chance(1, 2) {
+                    *a = format!("\u{1}blk{}", t.draw(2));
+                    expr_arg = true;
+                }
+            }
+        }
+    }
     MacroCase { isa, macros, calls, plain, globals, forward_global: true, local_label_used, expr_arg }
 }
 
@@ -220,6 +244,9 @@ fn render_macro_case(c: &MacroCase, inlined: bool) -> String {
                 s.push('\n');
             }
         }
+        let parent = if c.plain.iter().any(|(pos, line)| line == "gb:" && *pos <= k) { "gb" } else { "ga" };
+        let args: Vec<String> = args.iter().map(|a| match a.strip_prefix('\u{1}') { Some(n) if inlined => format!("{}.{}", parent, n), Some(n) => format!(".{}", n), None => a.clone() }).collect();
+        let args = &args;
         if inlined {
             let mut lines = Vec::new();
             body_lines(&c.macros, &c.isa, *mi, Some(args), &mut uniq, &mut lines);
